@@ -51,8 +51,19 @@
     114 ORACLE FOREST      enc_kforest gz  with gz x = the recorded gzip_encode answer for x (kind 2; [] if absent)
           FOREST = n TREE*n
           TREE   = 0 offset magic attr ts OLP(key) OLP(value)  |  1 offset magic attr ts OLP(key) FOREST
+     16 depth ORACLE LP(data)    _decode_message_set_iter(data) drained: Message.timestamp_type of every message yielded
+                                                                   -> n tstype*n outcome      (Model.RespView.py_decoded)
+
+   the theorems' own vocabulary evaluated on a case (Model.RespView wf_ / view_ functions): the input is the abstract
+   response exactly as for 101..114; the output is  wf  same  with wf = 1 iff the wf_ predicate of the theorem holds
+   and same = 1 iff the trace of decode (enc r) equals the trace of (view r)
+    201 ver ...  202 ver ...  203 .. 213          as 101 .. 113 (202: depth 6, no compression oracle)
+    214 depth ORACLE FOREST   forest_ok / dec_set depth orc (enc_kforest gz ts) vs view_log (log_of_forest ts)
+    215 base attr ts OLP(key) n (abs_offset magic attr ts OLP(key) OLP(value))*n ORACLE
+                              broker_batch_v1 base ..: -> 0 LP(enc_ktree gz tree)      (the KIP-31 definition, encoder side)
    Unparseable case -> -99. *)
-From AV Require Import Base.Util Model.Prim Model.Crc Model.MsgSet Model.CodecRun Model.KafkaSpecResp Model.Responses.
+From AV Require Import Base.Util Model.Prim Model.Crc Model.MsgSet Model.CodecRun Model.KafkaSpecResp Model.Responses
+     Model.RespView.
 
 (* ------------------------------------------------------------------ a tiny parser monad over case lines *)
 Definition P (A : Type) : Type := list Z -> option (A * list Z).
@@ -157,82 +168,172 @@ Definition with_data (r : list Z) (f : list Z -> list Z) : list Z :=
 Definition spec_out {A} (p : P A) (r : list Z) (enc : A -> list Z) : list Z :=
   match p r with Some (a, _) => 0 :: out_lp (enc a) | None => bad end.
 
+(* ---- traces of the decoders' results (shared by the decoder ops and the wf/view ops) ---- *)
+Definition tr_corr (v : res Z) : list Z := out_res (fun corr => [corr]) v.
+Definition tr_apiversions (v : res api_versions_response) : list Z :=
+  out_res (fun v => avr_error v :: out_list (fun a => [av_key a; av_min a; av_max a]) (avr_versions v)) v.
+Definition tr_produce (g : gen produce_item) : list Z := out_gen out_produce_item g.
+Definition tr_fetch (g : gen fetch_item) : list Z := out_gen out_fetch_item g.
+Definition tr_offsets (g : gen offset_item) : list Z := out_gen out_offset_item g.
+Definition tr_metadata (v : res (list (Z * broker_metadata) * list (list Z * topic_metadata))) : list Z :=
+  out_res (fun bt => out_list out_broker (sort_zkeys (fst bt)) ++ out_list out_topic_metadata (sort_bkeys (snd bt))) v.
+Definition tr_coordinator (v : res coordinator_response) : list Z :=
+  out_res (fun v => [cr_error v; cr_node v] ++ out_lp (cr_host v) ++ [cr_port v]) v.
+Definition tr_commit (g : gen commit_item) : list Z := out_gen out_commit_item g.
+Definition tr_ofetch (g : gen ofetch_item) : list Z := out_gen out_ofetch_item g.
+Definition tr_subscription (v : res protocol_metadata) : list Z :=
+  out_res (fun v => jm_version v :: out_list out_lp (jm_subscriptions v) ++ out_olp (jm_user_data v)) v.
+Definition tr_join (v : res join_response) : list Z :=
+  out_res (fun v => [jr_error v; jr_generation v] ++ out_lp (jr_protocol v) ++ out_lp (jr_leader v)
+                    ++ out_lp (jr_member v)
+                    ++ out_list (fun m => out_lp (jmb_id m) ++ out_olp (jmb_metadata m)) (jr_members v)) v.
+Definition tr_errcode (v : res Z) : list Z := out_res (fun e => [e]) v.
+Definition tr_sync (v : res (Z * option (list Z))) : list Z := out_res (fun v => fst v :: out_olp (snd v)) v.
+Definition tr_assignment (v : res member_assignment) : list Z :=
+  out_res (fun v => ma_version v
+                    :: out_list (fun tp => out_lp (fst tp) ++ out_lp (snd tp)) (sort_bkeys (ma_assignments v))
+                    ++ out_olp (ma_user_data v)) v.
+
+(* ---- abstract-response parsers (shared by the encoder ops 1xx and the wf/view ops 2xx) ---- *)
+Definition p_produce : P s_produce :=
+  par corr <- pz; par th <- pz; par ts <- plist p_produce_topic; pret (mk_s_produce corr ts th).
+Definition p_fetch : P s_fetch :=
+  par corr <- pz; par th <- pz; par ts <- plist p_fetch_topic; pret (mk_s_fetch corr th ts).
+Definition p_offsets : P s_offsets := par corr <- pz; par ts <- plist p_offsets_topic; pret (mk_s_offsets corr ts).
+Definition p_metadata : P s_metadata :=
+  par corr <- pz; par bs <- plist p_broker; par ts <- plist p_meta_topic; pret (mk_s_metadata corr bs ts).
+Definition p_commit : P s_commit := par corr <- pz; par ts <- plist p_commit_topic; pret (mk_s_commit corr ts).
+Definition p_ofetch : P s_ofetch := par corr <- pz; par ts <- plist p_ofetch_topic; pret (mk_s_ofetch corr ts).
+Definition p_coordinator : P s_coordinator :=
+  par corr <- pz; par e <- pz; par n <- pz; par h <- plp; par p <- pz; pret (mk_s_coordinator corr e n h p).
+Definition p_join : P s_join :=
+  par corr <- pz; par e <- pz; par g <- pz; par pr <- plp; par l <- plp; par m <- plp;
+  par ms <- plist p_member; pret (mk_s_join corr e g pr l m ms).
+Definition p_errcode : P s_errcode := par corr <- pz; par e <- pz; pret (mk_s_errcode corr e).
+Definition p_sync : P s_sync := par corr <- pz; par e <- pz; par a <- plp; pret (mk_s_sync corr e a).
+Definition p_apiversions : P s_apiversions :=
+  par corr <- pz; par e <- pz; par ks <- plist p_apikey; pret (mk_s_apiversions corr e ks).
+Definition p_subscription : P s_subscription :=
+  par v <- pz; par ts <- plist plp; par u <- polp; pret (mk_s_subscription v ts u).
+Definition p_assignment : P s_assignment :=
+  par v <- pz; par ts <- plist p_assigned; par u <- polp; pret (mk_s_assignment v ts u).
+
+Definition b2z (b : bool) : Z := if b then 1 else 0.
+(* wf r, and trace (decode (enc r)) = trace (view r) *)
+Definition wf_view {A} (p : P A) (r : list Z) (wf : A -> bool) (got want : A -> list Z) : list Z :=
+  match p r with Some (a, _) => [b2z (wf a); b2z (zlist_eqb (got a) (want a))] | None => bad end.
+
+Definition nil_oracle : oracle :=
+  mkOracle (fun _ => Err OracleMiss) (fun _ => Err OracleMiss) false (fun _ => Err OracleMiss) (fun _ => Err OracleMiss).
+Definition opt_gen {A} (tr : gen A -> list Z) (o : option (gen A)) : list Z := match o with Some g => tr g | None => bad end.
+
+Definition p_abs_msg : P (Z * kmsg) :=
+  par off <- pz; par magic <- pz; par attr <- pz; par ts <- pz; par key <- polp; par value <- polp;
+  pret (off, mk_kmsg magic attr ts key value).
+
 Definition run_case (c : list Z) : list Z :=
   match c with
-  | 1 :: r => with_data r (fun d => out_res (fun corr => [corr]) (get_response_correlation_id d))
-  | 2 :: r => with_data r (fun d =>
-      out_res (fun v => avr_error v :: out_list (fun a => [av_key a; av_min a; av_max a]) (avr_versions v))
-              (decode_api_versions_response d))
-  | 3 :: ver :: r => with_data r (fun d =>
-      match decode_produce_response ver d with
-      | Some g => out_gen out_produce_item g
-      | None => bad
-      end)
+  | 1 :: r => with_data r (fun d => tr_corr (get_response_correlation_id d))
+  | 2 :: r => with_data r (fun d => tr_apiversions (decode_api_versions_response d))
+  | 3 :: ver :: r => with_data r (fun d => opt_gen tr_produce (decode_produce_response ver d))
   | 4 :: ver :: depth :: r =>
       match parse_oracle r with
       | Some (orc, r1) =>
           if (depth <? 0) || (1000 <? depth) then bad
-          else with_data r1 (fun d =>
-                 out_gen out_fetch_item (decode_fetch_response ver (Z.to_nat depth) orc d))
+          else with_data r1 (fun d => tr_fetch (decode_fetch_response ver (Z.to_nat depth) orc d))
       | None => bad
       end
-  | 5 :: r => with_data r (fun d => out_gen out_offset_item (decode_offset_response d))
-  | 6 :: r => with_data r (fun d =>
-      out_res (fun bt => out_list out_broker (sort_zkeys (fst bt)) ++ out_list out_topic_metadata (sort_bkeys (snd bt)))
-              (decode_metadata_response d))
-  | 7 :: r => with_data r (fun d =>
-      out_res (fun v => [cr_error v; cr_node v] ++ out_lp (cr_host v) ++ [cr_port v])
-              (decode_consumermetadata_response d))
-  | 8 :: r => with_data r (fun d => out_gen out_commit_item (decode_offset_commit_response d))
-  | 9 :: r => with_data r (fun d => out_gen out_ofetch_item (decode_offset_fetch_response d))
-  | 10 :: r => with_data r (fun d =>
-      out_res (fun v => jm_version v :: out_list out_lp (jm_subscriptions v) ++ out_olp (jm_user_data v))
-              (decode_join_group_protocol_metadata d))
-  | 11 :: r => with_data r (fun d =>
-      out_res (fun v => [jr_error v; jr_generation v] ++ out_lp (jr_protocol v) ++ out_lp (jr_leader v)
-                        ++ out_lp (jr_member v)
-                        ++ out_list (fun m => out_lp (jmb_id m) ++ out_olp (jmb_metadata m)) (jr_members v))
-              (decode_join_group_response d))
-  | 12 :: r => with_data r (fun d => out_res (fun e => [e]) (decode_leave_group_response d))
-  | 13 :: r => with_data r (fun d => out_res (fun e => [e]) (decode_heartbeat_response d))
-  | 14 :: r => with_data r (fun d =>
-      out_res (fun v => fst v :: out_olp (snd v)) (decode_sync_group_response d))
-  | 15 :: r => with_data r (fun d =>
-      out_res (fun v => ma_version v
-                        :: out_list (fun tp => out_lp (fst tp) ++ out_lp (snd tp)) (sort_bkeys (ma_assignments v))
-                        ++ out_olp (ma_user_data v))
-              (decode_sync_group_member_assignment d))
+  | 5 :: r => with_data r (fun d => tr_offsets (decode_offset_response d))
+  | 6 :: r => with_data r (fun d => tr_metadata (decode_metadata_response d))
+  | 7 :: r => with_data r (fun d => tr_coordinator (decode_consumermetadata_response d))
+  | 8 :: r => with_data r (fun d => tr_commit (decode_offset_commit_response d))
+  | 9 :: r => with_data r (fun d => tr_ofetch (decode_offset_fetch_response d))
+  | 10 :: r => with_data r (fun d => tr_subscription (decode_join_group_protocol_metadata d))
+  | 11 :: r => with_data r (fun d => tr_join (decode_join_group_response d))
+  | 12 :: r => with_data r (fun d => tr_errcode (decode_leave_group_response d))
+  | 13 :: r => with_data r (fun d => tr_errcode (decode_heartbeat_response d))
+  | 14 :: r => with_data r (fun d => tr_sync (decode_sync_group_response d))
+  | 15 :: r => with_data r (fun d => tr_assignment (decode_sync_group_member_assignment d))
+  | 16 :: depth :: r =>
+      match parse_oracle r with
+      | Some (orc, r1) =>
+          if (depth <? 0) || (1000 <? depth) then bad
+          else with_data r1 (fun d =>
+                 let dr := dec_set (Z.to_nat depth) orc d in
+                 out_list (fun op => [pm_tstype (snd op)]) (py_decoded_set dr)
+                 ++ [match snd dr with None => 0 | Some e => err_code e end])
+      | None => bad
+      end
   (* ---- grammar encoder ---- *)
-  | 101 :: ver :: r =>
-      spec_out (par corr <- pz; par th <- pz; par ts <- plist p_produce_topic; pret (mk_s_produce corr ts th)) r
-               (enc_produce ver)
-  | 102 :: ver :: r =>
-      spec_out (par corr <- pz; par th <- pz; par ts <- plist p_fetch_topic; pret (mk_s_fetch corr th ts)) r
-               (enc_fetch ver)
-  | 103 :: r => spec_out (par corr <- pz; par ts <- plist p_offsets_topic; pret (mk_s_offsets corr ts)) r enc_offsets
-  | 104 :: r =>
-      spec_out (par corr <- pz; par bs <- plist p_broker; par ts <- plist p_meta_topic; pret (mk_s_metadata corr bs ts))
-               r enc_metadata
-  | 105 :: r => spec_out (par corr <- pz; par ts <- plist p_commit_topic; pret (mk_s_commit corr ts)) r enc_commit
-  | 106 :: r => spec_out (par corr <- pz; par ts <- plist p_ofetch_topic; pret (mk_s_ofetch corr ts)) r enc_ofetch
-  | 107 :: r =>
-      spec_out (par corr <- pz; par e <- pz; par n <- pz; par h <- plp; par p <- pz; pret (mk_s_coordinator corr e n h p))
-               r enc_coordinator
-  | 108 :: r =>
-      spec_out (par corr <- pz; par e <- pz; par g <- pz; par pr <- plp; par l <- plp; par m <- plp;
-                par ms <- plist p_member; pret (mk_s_join corr e g pr l m ms)) r enc_join
-  | 109 :: r => spec_out (par corr <- pz; par e <- pz; pret (mk_s_errcode corr e)) r enc_errcode
-  | 110 :: r => spec_out (par corr <- pz; par e <- pz; par a <- plp; pret (mk_s_sync corr e a)) r enc_sync
-  | 111 :: r =>
-      spec_out (par corr <- pz; par e <- pz; par ks <- plist p_apikey; pret (mk_s_apiversions corr e ks)) r
-               enc_apiversions
-  | 112 :: r =>
-      spec_out (par v <- pz; par ts <- plist plp; par u <- polp; pret (mk_s_subscription v ts u)) r enc_subscription
-  | 113 :: r =>
-      spec_out (par v <- pz; par ts <- plist p_assigned; par u <- polp; pret (mk_s_assignment v ts u)) r enc_assignment
+  | 101 :: ver :: r => spec_out p_produce r (enc_produce ver)
+  | 102 :: ver :: r => spec_out p_fetch r (enc_fetch ver)
+  | 103 :: r => spec_out p_offsets r enc_offsets
+  | 104 :: r => spec_out p_metadata r enc_metadata
+  | 105 :: r => spec_out p_commit r enc_commit
+  | 106 :: r => spec_out p_ofetch r enc_ofetch
+  | 107 :: r => spec_out p_coordinator r enc_coordinator
+  | 108 :: r => spec_out p_join r enc_join
+  | 109 :: r => spec_out p_errcode r enc_errcode
+  | 110 :: r => spec_out p_sync r enc_sync
+  | 111 :: r => spec_out p_apiversions r enc_apiversions
+  | 112 :: r => spec_out p_subscription r enc_subscription
+  | 113 :: r => spec_out p_assignment r enc_assignment
   | 114 :: r =>
       match parse_oracle r with
       | Some (orc, r1) => spec_out (plist (p_tree (length r1))) r1 (enc_kforest (gz_of orc))
+      | None => bad
+      end
+  (* ---- wf_ / view_ of the theorems, evaluated ---- *)
+  | 201 :: ver :: r =>
+      wf_view p_produce r wf_produce
+              (fun a => opt_gen tr_produce (decode_produce_response ver (enc_produce (if (ver =? 0) then 0 else 2) a)))
+              (fun a => tr_produce (view_produce a, Ok []))
+  | 202 :: ver :: r =>
+      wf_view p_fetch r wf_fetch
+              (fun a => tr_fetch (decode_fetch_response ver 6 nil_oracle (enc_fetch (if (ver =? 0) then 0 else 2) a)))
+              (fun a => tr_fetch (view_fetch 6 nil_oracle a, Ok []))
+  | 203 :: r => wf_view p_offsets r wf_offsets (fun a => tr_offsets (decode_offset_response (enc_offsets a)))
+                        (fun a => tr_offsets (view_offsets a, Ok []))
+  | 204 :: r => wf_view p_metadata r wf_metadata (fun a => tr_metadata (decode_metadata_response (enc_metadata a)))
+                        (fun a => tr_metadata (Ok (view_metadata a)))
+  | 205 :: r => wf_view p_commit r wf_commit (fun a => tr_commit (decode_offset_commit_response (enc_commit a)))
+                        (fun a => tr_commit (view_commit a, Ok []))
+  | 206 :: r => wf_view p_ofetch r wf_ofetch (fun a => tr_ofetch (decode_offset_fetch_response (enc_ofetch a)))
+                        (fun a => tr_ofetch (view_ofetch a, Ok []))
+  | 207 :: r => wf_view p_coordinator r wf_coordinator
+                        (fun a => tr_coordinator (decode_consumermetadata_response (enc_coordinator a)))
+                        (fun a => tr_coordinator (Ok (view_coordinator a)))
+  | 208 :: r => wf_view p_join r wf_join (fun a => tr_join (decode_join_group_response (enc_join a)))
+                        (fun a => tr_join (Ok (view_join a)))
+  | 209 :: r => wf_view p_errcode r wf_errcode (fun a => tr_errcode (decode_heartbeat_response (enc_errcode a)))
+                        (fun a => tr_errcode (Ok (se_error a)))
+  | 210 :: r => wf_view p_sync r wf_sync (fun a => tr_sync (decode_sync_group_response (enc_sync a)))
+                        (fun a => tr_sync (Ok (ss_error a, Some (ss_assignment a))))
+  | 211 :: r => wf_view p_apiversions r wf_apiversions
+                        (fun a => tr_apiversions (decode_api_versions_response (enc_apiversions a)))
+                        (fun a => tr_apiversions (Ok (view_apiversions a)))
+  | 212 :: r => wf_view p_subscription r wf_subscription
+                        (fun a => tr_subscription (decode_join_group_protocol_metadata (enc_subscription a)))
+                        (fun a => tr_subscription (Ok (view_subscription a)))
+  | 213 :: r => wf_view p_assignment r wf_assignment
+                        (fun a => tr_assignment (decode_sync_group_member_assignment (enc_assignment a)))
+                        (fun a => tr_assignment (Ok (view_assignment a)))
+  | 214 :: depth :: r =>
+      match parse_oracle r with
+      | Some (orc, r1) =>
+          if (depth <? 0) || (1000 <? depth) then bad
+          else wf_view (plist (p_tree (length r1))) r1 (forest_ok (gz_of orc) (Z.to_nat depth))
+                       (fun ts => out_dres (dec_set (Z.to_nat depth) orc (enc_kforest (gz_of orc) ts)))
+                       (fun ts => out_dres (view_log (log_of_forest ts), None))
+      | None => bad
+      end
+  | 215 :: base :: attr :: ts :: r =>
+      match (par key <- polp; par abs <- plist p_abs_msg; pret (key, abs)) r with
+      | Some ((key, abs), r1) =>
+          match parse_oracle r1 with
+          | Some (orc, _) => 0 :: out_lp (enc_ktree (gz_of orc) (broker_batch_v1 base attr ts key abs))
+          | None => bad
+          end
       | None => bad
       end
   | _ => bad
